@@ -1113,6 +1113,74 @@ wait:
 		}
 	}
 
+	// FAMILY "modifiers": skip / limit / order applied as criteria of their own. The text, parsed back, must carry exactly
+	// the modifiers that were applied - in particular the value 0 (limit 0 selects no rows; no limit selects all).
+	modifierCases := 0
+	for _, skip := range []int{-1, 0, 1, 7} { // -1: not applied
+		for _, limit := range []int{-1, 0, 1, 7} {
+			for _, ordered := range []bool{false, true} {
+				modifierCases++
+				b := NewEmptyQueryBuilder()
+				b.Apply(query.Where(query.Kind(query.Node(), graph.StringKind("KindA"))))
+				b.Apply(query.Returning(query.Node()))
+				desc := ""
+				if ordered {
+					b.Apply(query.OrderBy(query.Order(query.NodeProperty("name"), query.Descending())))
+					desc += " order by n.name desc"
+				}
+				if skip >= 0 {
+					b.Apply(query.Offset(skip))
+					desc += fmt.Sprintf(" skip %d", skip)
+				}
+				if limit >= 0 {
+					b.Apply(query.Limit(limit))
+					desc += fmt.Sprintf(" limit %d", limit)
+				}
+				text, err := nbRender(b)
+				if err != nil {
+					record(fmt.Sprintf("modifiers%s: Prepare/Render failed: %v", desc, err))
+					continue
+				}
+				model, err := frontend.ParseCypher(frontend.NewContext(), text)
+				if err != nil || model.SingleQuery == nil || model.SingleQuery.SinglePartQuery == nil || model.SingleQuery.SinglePartQuery.Return == nil || model.SingleQuery.SinglePartQuery.Return.Projection == nil {
+					record(fmt.Sprintf("modifiers%s: emitted text %q does not parse to a single part query with a projection: %v", desc, text, err))
+					continue
+				}
+				proj := model.SingleQuery.SinglePartQuery.Return.Projection
+				lit := func(e cypher.Expression) string {
+					if l, ok := e.(*cypher.Literal); ok {
+						return fmt.Sprint(l.Value)
+					}
+					return fmt.Sprintf("%T", e)
+				}
+				got := ""
+				if proj.Order != nil && len(proj.Order.Items) > 0 {
+					got += " order"
+				}
+				if proj.Skip != nil {
+					got += " skip " + lit(proj.Skip.Value)
+				}
+				if proj.Limit != nil {
+					got += " limit " + lit(proj.Limit.Value)
+				}
+				want := ""
+				if ordered {
+					want += " order"
+				}
+				if skip >= 0 {
+					want += fmt.Sprintf(" skip %d", skip)
+				}
+				if limit >= 0 {
+					want += fmt.Sprintf(" limit %d", limit)
+				}
+				if got != want {
+					record(fmt.Sprintf("modifiers applied:%s; the emitted text %q carries:%s", desc, text, got))
+				}
+			}
+		}
+	}
+	cases += int64(modifierCases)
+
 	mu.Lock()
 	out := append([]string{}, failures...)
 	total := failCount
